@@ -57,6 +57,9 @@ def policy_history(draw):
     n = len(case["calls"])
     case["entries"] = draw(st.lists(st.sampled_from(POLICY_ENTRIES), min_size=1, max_size=3))
     for c in case["calls"]:
+        if c.get("handler") is None and gen.chance(draw, 0.2, "c07-defer"):
+            # probes that end by deferral or by a handler's abort
+            c["handler"] = draw(st.lists(st.sampled_from(["defer", "defer", "sleep", "abort"]), min_size=1, max_size=3))
         if gen.chance(draw, 0.6, "c07-preops"):
             c["pre_ops"] = [
                 list(o)
@@ -135,6 +138,16 @@ def check_policy(case: dict) -> Verdict:
                     out.append(("C07:rejection-event", f"circuit_rejected event {ev[1:]} does not carry attempt 0 / state {allows[0][3][1]}"))
         elif not cv.atts and end["kind"] not in ("abort",) and not any(e[0] == "poll" and e[2] for e in cv.events):
             out.append(("C07:admitted-but-not-invoked", f"call #{cv.j} was admitted but the operation never ran (ended {end['kind']})"))
+        elif allows[0][3][1] == "half_open" and records:
+            # this call is the probe: its result decides the breaker's next state
+            kinds = [r[1] for r in records]
+            nested = bool(cv.atts) and cv.atts[-1].kind == "copen"
+            how = f"{end['kind']}/{oracles.reported_reason(cv)}"
+            if end["kind"] == "fail" and not nested and "record_failure" not in kinds:
+                out.append((f"C07:failed-probe-not-reopened:{end.get('mode', '?')}", f"probe call #{cv.j} ({entries[cv.j % len(entries)]}) ended {how} but told the breaker {kinds}: the circuit is not re-opened"))
+            if end["kind"] == "value" and "record_success" not in kinds:
+                out.append((f"C07:successful-probe-not-closed:{end.get('mode', '?')}", f"probe call #{cv.j} ({entries[cv.j % len(entries)]}) returned a value but told the breaker {kinds}"))
+            v.tag("probe-ended:" + ("nested-rejection" if nested and end["kind"] == "fail" else how))
     v.violations = out
     v.nontrivial = reached_half
     if reached_half:
